@@ -20,6 +20,7 @@ import time
 
 import common
 
+EXTRA_STREAM_MODULES = ["parser"]   # the parser model's correspondence (lib/props/parser.py) runs as part of this check
 TRUSTED_EXTRA = [
     "C07: std functions modelled by their specification: memchr2 (first index of either byte, else len), u8::is_ascii_*, "
     "slice::binary_search on the strictly increasing line-start vector, str::chars (one char per non-continuation byte of valid text), "
